@@ -85,9 +85,9 @@ FORMS = ["f:>a", "a∇f", ":a∇f?", "loss:>[a b]", "a∂g", "[a b]∂h", ".jaco
 def purity(form: int, kind: int, kind2: int, k: int, mode: int) -> bool:
     """
     pre: 0 <= form <= 5 and form == CFG.get('form', form)
-    pre: 0 <= kind <= 4 and 0 <= kind2 <= 4
-    pre: kind2 == 0 or form == 2 or form == 4
-    pre: 0 <= k <= 20
+    pre: 0 <= kind <= 4 and 0 <= kind2 <= 4 and kind == CFG.get('kind', kind)
+    pre: kind2 == 0 or ((form == 2 or form == 4) and (kind2 == 1 or kind2 == 3 or CFG.get('allkinds')))
+    pre: 0 <= k <= CFG.get('kmax', 20)
     pre: 0 <= mode <= 2
     post: _
     """
@@ -99,7 +99,6 @@ def purity(form: int, kind: int, kind2: int, k: int, mode: int) -> bool:
     for name in list(ctx[0].keys()):
         if str(name) != "fl":
             del ctx[0][name]
-    K._parse_cache.clear(); K._compiled_cache.clear()
     pa = _param(pick([0, 1, 2, 3, 4], kind)); pb = _param(pick([0, 1, 2, 3, 4], kind2))
     K['a'] = pa; K['b'] = pb
     K['cc'] = 0.5; K['other'] = np.asarray([9.0, 8.0])
@@ -149,6 +148,11 @@ def obligations(tier):
     q = tier == "quick"
     obs = []
     for form in range(6):
-        obs.append({"name": "purity form=%s" % FORMS[[0, 1, 3, 4, 5, 6][form]], "fn": "purity", "cfg": {"form": form},
-                    "timeout": 400 if q else 1500})
+        if form in (2, 4):          # two parameters: split by the kind of the first one
+            for kind in range(5):
+                obs.append({"name": "purity form=%s first parameter kind %d" % (FORMS[[0, 1, 3, 4, 5, 6][form]], kind), "fn": "purity",
+                            "cfg": {"form": form, "kind": kind, "kmax": 12 if q else 20, "allkinds": not q}, "timeout": 600 if q else 1500})
+        else:
+            obs.append({"name": "purity form=%s" % FORMS[[0, 1, 3, 4, 5, 6][form]], "fn": "purity", "cfg": {"form": form, "kmax": 12 if q else 20},
+                        "timeout": 400 if q else 1500})
     return obs
